@@ -82,8 +82,52 @@ fn attr_names(attrs: &[syn::Attribute]) -> Vec<String> {
         .collect()
 }
 
+/// `annotator --quotes <file.rs> <out.json>`: every `quote! { .. }` invocation with the function it sits in and its ordinal there
+struct QuoteFinder {
+    current: Vec<String>,
+    count: HashMap<String, usize>,
+    out: Vec<Value>,
+}
+
+impl<'ast> syn::visit::Visit<'ast> for QuoteFinder {
+    fn visit_item_fn(&mut self, f: &'ast syn::ItemFn) {
+        self.current.push(f.sig.ident.to_string());
+        syn::visit::visit_item_fn(self, f);
+        self.current.pop();
+    }
+    fn visit_impl_item_fn(&mut self, f: &'ast syn::ImplItemFn) {
+        self.current.push(f.sig.ident.to_string());
+        syn::visit::visit_impl_item_fn(self, f);
+        self.current.pop();
+    }
+    fn visit_macro(&mut self, m: &'ast syn::Macro) {
+        if m.path.is_ident("quote") {
+            let f = self.current.first().cloned().unwrap_or_default();
+            let n = self.count.entry(f.clone()).or_insert(0);
+            self.out.push(json!({"fn": f, "ordinal": *n, "tokens": m.tokens.to_string()}));
+            *n += 1;
+        }
+        syn::visit::visit_macro(self, m);
+    }
+}
+
+fn quotes(path: &str, out: &str) -> Result<(), String> {
+    let text = std::fs::read_to_string(path).map_err(|e| e.to_string())?;
+    let file: syn::File = syn::parse_file(&text).map_err(|e| format!("parse: {e}"))?;
+    let mut q = QuoteFinder { current: Vec::new(), count: HashMap::new(), out: Vec::new() };
+    syn::visit::Visit::visit_file(&mut q, &file);
+    std::fs::write(out, serde_json::to_string_pretty(&Value::Array(q.out)).unwrap()).map_err(|e| e.to_string())
+}
+
 fn main() {
     let args: Vec<String> = std::env::args().collect();
+    if args.len() == 4 && args[1] == "--quotes" {
+        if let Err(e) = quotes(&args[2], &args[3]) {
+            eprintln!("annotator: {e}");
+            std::process::exit(2);
+        }
+        return;
+    }
     let job: Value = serde_json::from_str(&std::fs::read_to_string(&args[1]).expect("job file")).expect("job json");
     let mut failed = false;
     for j in job.as_array().expect("job array") {
